@@ -299,4 +299,42 @@ theorem run_kind (s : LP α) (ops : List (LPOp α)) : (s.run ops).kind = s.kind 
   | nil => rfl
   | cons op ops ih => simp only [List.foldl_cons]; rw [ih, stepOp_kind]
 
+
+/-! ### configuration fields never change along a history without binarizers -/
+
+theorem fit_config (s : LP α) (b : Batch α) (w : Option Nat) :
+    (s.fit b w).binz = s.binz ∧ (s.fit b w).ctxBin = s.ctxBin ∧ (s.fit b w).k1fixed = s.k1fixed ∧
+    (s.kind.isLinear = false → (s.fit b w).numFeatures = s.numFeatures) := by
+  unfold LP.fit
+  split
+  · exact ⟨rfl, rfl, rfl, fun _ => rfl⟩
+  · rw [post_binz, post_ctxBin, post_k1, post_numFeatures]
+    unfold LP.parallelFit
+    rw [parallelFitIn_eq]
+    refine ⟨rfl, rfl, rfl, ?_⟩
+    intro hl
+    simp [LP.resetFor, LP.nfFor, hl]
+
+theorem partialFit_config (s : LP α) (b : Batch α) :
+    (s.partialFit b).binz = s.binz ∧ (s.partialFit b).ctxBin = s.ctxBin ∧ (s.partialFit b).k1fixed = s.k1fixed ∧
+    (s.partialFit b).numFeatures = s.numFeatures := by
+  unfold LP.partialFit
+  split
+  · exact ⟨rfl, rfl, rfl, rfl⟩
+  · rw [post_binz, post_ctxBin, post_k1, post_numFeatures]
+    unfold LP.parallelFit
+    rw [parallelFitIn_eq]
+    exact ⟨rfl, rfl, rfl, rfl⟩
+
+
+theorem fit_numFeatures_linear (u : LP α) (b : Batch α) (wv : Nat) (hl : u.kind.isLinear = true) :
+    (u.fit b (some wv)).numFeatures = some wv := by
+  unfold LP.fit
+  split
+  · next h => rw [h] at hl; simp [Kind.isLinear] at hl
+  · rw [post_numFeatures]
+    unfold LP.parallelFit
+    rw [parallelFitIn_eq]
+    simp [LP.resetFor, LP.nfFor, hl]
+
 end Mab
